@@ -616,7 +616,7 @@ namespace
                 .raw("caps", caps + "]");
         }
 
-        void do_move(const Cmd& c, bool assign)
+        void do_move(const Cmd& c, bool assign, bool zombie_target = false)
         {
             if (kept_mark >= 0)
             {
@@ -642,7 +642,16 @@ namespace
             }
             else
             {
-                ISubject* t = create(hi, true);
+                // mz: the target is the most recent moved-from object that is still alive ("the moved-from object can be
+                // assigned to"); without one, like ma: a fresh object built from the target header
+                ISubject* t = nullptr;
+                if (zombie_target && !zombies.empty())
+                {
+                    t = zombies.back();
+                    zombies.pop_back();
+                }
+                else
+                    t = create(hi, true);
                 if (!t)
                     return;
                 long        d0 = w.up_frees, c0 = w.up_calls;
@@ -763,6 +772,8 @@ namespace
                         do_move(c, false);
                     else if (op == "ma")
                         do_move(c, true);
+                    else if (op == "mz")
+                        do_move(c, true, true);
                     else if (op == "kz")
                         kill_zombies();
                     else if (op == "ab")
